@@ -113,6 +113,18 @@ def check(chk):
         chk.ob("TABLE-9", "the encoder's type dispatch has one branch per tagged type plus the plain-string branch (%d)" % len(chain), True, enc.where(), nontrivial=False)
     enc = enc_
     ecfg = enc.cfg()
+    # every parameter ends up on the line: the pair is *appended* to the string built so far, for every parameter the loop gets to
+    accs = [n for n in ecfg.nodes if n.kind == "stmt" and isinstance(n.ast, (ast.AugAssign, ast.Assign)) and
+            src(n.ast.target if isinstance(n.ast, ast.AugAssign) else n.ast.targets[0]) == "kwarg_string" and any(y is n.ast for lp_ in ast.walk(enc.node)
+            if isinstance(lp_, ast.For) for y in ast.walk(lp_))]
+    ok = len(accs) == 1 and isinstance(accs[0].ast, ast.AugAssign) and isinstance(accs[0].ast.op, ast.Add) and "format(quote(k, '')" in src(accs[0].ast.value)
+    if ok:
+        from sa.helpers import inloop_guards
+        from sa.cfg import canon_fact
+        lh_ = [h for h in ecfg.nodes if h.kind == "loop" and any(y is accs[0].ast for y in ast.walk(h.ast))]
+        ok = bool(lh_) and inloop_guards(ecfg, accs[0].id, lh_[-1].id) == {canon_fact("isinstance(v, (dict, list))", False)}
+    chk.ob("LAYER-1", "every parameter's name=value pair is appended to the line (none is overwritten or skipped)", ok, enc.where(), construct=enc.ident,
+           text="pairs accumulated")
     kq = [c for c in enc.calls() if call_attr(c) in QUO and src(c.args[0]) == "k"]
     chk.ob("LAYER-1", "parameter names are percent-encoded once as well", len(kq) == 1 and src(kq[0].args[1]) == "''", enc.where(), construct=enc.ident,
            text="key quote")
@@ -437,6 +449,7 @@ def battery():
         M("ints above a bound are sent as plain text", BS, "        elif isinstance(v, int):\n            value = 'int:{}'.format(value)", "        elif isinstance(v, int) and abs(v) < 2 ** 31:\n            value = 'int:{}'.format(value)", "TABLE-9"),
         M("decoder accepts the None tag only for some names", BS, "        elif value == 'NoneType:':\n            kwargs[name] = None", "        elif value == 'NoneType:' and name != 'value':\n            kwargs[name] = None", "TABLE-9"),
         M("decoder drops parameters named like an earlier prefix", BS, "        if name in kwargs:\n            continue", "        if name in kwargs or name.startswith('_'):\n            continue", "TABLE-9"),
+        M("only the last parameter is sent", BS, "        kwarg_string += '{}={}&'.format(quote(k, ''),", "        kwarg_string = '{}={}&'.format(quote(k, ''),", "LAYER-1"),
     ]
 
 
